@@ -1049,6 +1049,20 @@ impl AArch64Instruction {
                 mask = (extracted_value as u32) >> scale;
             }
         }
+        // Clear whatever the immediate field held before, so that what we write depends only on
+        // the value. `Movnz` already cleared everything that it rewrites.
+        let field: u32 = match self {
+            AArch64Instruction::Adr => (0x3 << 29) | (0x7_ffff << 5),
+            AArch64Instruction::Movkz => 0xffff << 5,
+            AArch64Instruction::Movnz | AArch64Instruction::MachOLow12 => 0,
+            AArch64Instruction::Ldr | AArch64Instruction::Bcond => 0x7_ffff << 5,
+            AArch64Instruction::LdrRegister
+            | AArch64Instruction::Add
+            | AArch64Instruction::LdSt => 0xfff << 10,
+            AArch64Instruction::TstBr => 0x3fff << 5,
+            AArch64Instruction::JumpCall => 0x3ff_ffff,
+        };
+        and_from_slice(dest, &(!field).to_le_bytes());
         // Read the original value and combine it with the prepared mask.
         or_from_slice(dest, &mask.to_le_bytes());
     }
